@@ -531,6 +531,14 @@ class Cache:
                 'with a newer version of the file_builder library. Try '
                 'upgrading.'.format(filename))
 
+        # We look up function and operation versions lazily, i.e. after we have
+        # started calling build functions. Make sure that this can't fail, so
+        # that we reject a malformed cache file before doing anything.
+        if (not isinstance(cache_json['funcVersions'], dict) or
+                not isinstance(cache_json['operationVersions'], dict)):
+            raise RuntimeError(
+                'Error parsing cache file {:s}'.format(filename))
+
         files = {}
         subbuilds = {}
         Cache._operations_from_json(
